@@ -306,7 +306,7 @@ def guards_of(fi, target_node, raw=False):
     return GuardSet(out, alt)
 
 
-def run_abstract(fi, outcome):
+def run_abstract(fi, outcome, starts=None):
     """Follow the CFG of fi with test outcomes fixed by `outcome(test_expr) -> 'T'|'F'|None`
     (None: both).  Exceptional edges are not followed.  -> set of reached node ids.
     A test the valuation does not know is offered again with its single-assignment locals
@@ -320,7 +320,7 @@ def run_abstract(fi, outcome):
             v = _orig(resolve(fi, e))
         return v
     seen = set()
-    stack = [cfg.entry]
+    stack = list(starts) if starts is not None else [cfg.entry]
     while stack:
         a = stack.pop()
         if a in seen:
@@ -419,6 +419,16 @@ def resolve(fi, expr, depth=3):
     if not defs or expr is None:
         return expr
     return _Subst(defs, depth).visit(copy.deepcopy(expr))
+
+
+def origin(fi, expr, depth=4):
+    """The node that defines `expr`: a single-assignment local is chased to its defining
+    expression (the original node of the function, so identity tests still work)."""
+    defs = single_defs(fi)
+    while depth and isinstance(expr, ast.Name) and expr.id in defs:
+        expr = defs[expr.id]
+        depth -= 1
+    return expr
 
 
 def _alias_expr(e):
